@@ -24,7 +24,7 @@ CLAIMED = {
         note="Assumes as C01/C15. SearchRes/DescriptionRes are NOT covered deductively (friendly name passes through the charmap codec, an assumed contract without an inverse): a BOUNDED stand-in executes their round trip on the real code for names of every length 0..29, 0..20 families (not exhaustive). ConnRes: the decoder does not read the 4-byte connection response data block, so the lemma states only the fields it reads. Payload length 255 rather than 254 is allowed by the lemma precondition (the code accepts it).",
         ref="§3 C02"),
     "C06": dict(
-        text="Proof, by one generated lemma per registered type (152 types; statement taken from the property: Unpack(b) ok ==> Unpack(Pack(v)) ok with the same value, plus byte identity of the re-encoding for the exact integer, bit-field, enumeration, character and IEEE formats), verified against the real Pack/Unpack bodies ('exact' mode) for every payload of every length. For the 20 two-octet float types 9.xxx the round trip is decided by exhaustive execution of the real code over all 65,536 payloads of each type (complete, labelled bounded stand-in). For 16.000/16.001 only a BOUNDED stand-in exists.",
+        text="Proof, by one generated lemma per registered type (152 types; statement taken from the property: Unpack(b) ok ==> Unpack(Pack(v)) ok with the same value, plus byte identity of the re-encoding, up to ignored reserved bits and documented replacements, for the exact integer, bit-field (10.001, 11.001, 1.xxx), enumeration, scene (17/18), colour (232/242/251) and IEEE formats; the character strings 16.xxx are compared by value only), verified against the real Pack/Unpack bodies ('exact' mode) for every payload of every length. For the 20 two-octet float types 9.xxx the round trip is decided by exhaustive execution of the real code over all 65,536 payloads of each type (complete, labelled bounded stand-in). For 16.000/16.001 only a BOUNDED stand-in exists.",
         note="Assumes as C08. BOUNDED: 16.000/16.001 (two adjacent octets over all values at every position, three fill patterns) - not a proof; 9.xxx exhaustive over the complete 2^16 domain per type but by execution, not by a discharged obligation. A deductive round-trip proof of packF16/unpackF16 per exponent was measured (exponent 0: 225 obligations in 16m40s; exponent 12: no answer within 1000 s) and is not part of any tier.",
         ref="§3 C06"),
     "C07": dict(
@@ -37,7 +37,7 @@ CLAIMED = {
         ref="§3 C08"),
     "C16": dict(
         text="Proof for TunnelSocket.Send and RouterSocket.Send (exactly one Write/WriteToUDP of a freshly allocated buffer of 6+Size bytes whose header length field equals the length written), for serveUDPSocket (one datagram read per iteration, at most one frame sent on inbound per datagram, inbound closed exactly once on every exit) and serveTCPSocket (at most one frame per iteration; every iteration that loops has advanced the ghost stream position — the receiver cannot spin; inbound closed exactly once), and for Tunnel.hostInfo (all-zero NAT endpoint unless a local address is to be sent over UDP; protocol code TCP4 iff the socket's local address reports network \"tcp\", UDP4 iff \"udp\", error otherwise).",
-        note="Assumes contracts for net.Conn.Write / (*net.UDPConn).WriteToUDP / ReadFromUDP (0 <= n <= len), bufio.Reader.Peek and io.ReadFull as a byte stream (ghost position), net.IP.Equal. Independence of TCP segmentation is inherited from that assumed byte-stream contract, it is not a result. Concurrent senders: freshness of the buffer is proved, atomicity of one Write is assumed. SupportedServicesDIB bounded to 5 families as in C15.",
+        note="Assumes contracts for net.Conn.Write / (*net.UDPConn).WriteToUDP / ReadFromUDP (0 <= n <= len), bufio.Reader.Peek and io.ReadFull as a byte stream (ghost position), net.IP.Equal. Independence of TCP segmentation is inherited from that assumed byte-stream contract, it is not a result; a BOUNDED stand-in (C16TCP) runs the real receiver over loopback TCP under 134 segmentations of one 6-frame stream (skipped, and said so, where loopback is unavailable). HostInfoFromAddress (the advertised local endpoint) is verified against assumed contracts of net.SplitHostPort/net.ParseIP/net.IP.To4/strconv.ParseUint. Concurrent senders: freshness of the buffer is proved, atomicity of one Write is assumed. SupportedServicesDIB bounded to 5 families as in C15.",
         ref="§3 C16"),
     "C03": dict(
         text="Proof of the transition contracts of the tunnel sender: requestTunnel (lock taken first and released on every path; every frame sent in the call is the same TunnelReq{channel, seq0 (0 on TCP), data}; TCP: exactly one send, no wait; UDP: success only with a received ack carrying seq0 and status 0 and then seqNumber == seq0+1; matching ack with error status fails and still advances; non-matching acks change nothing; ticker = ResendInterval, timeout = ResponseTimeout, each created once), handleTunnelRes (offers on conn.ack only for the connection's channel) and requestConn (resets the counter to 0 under the lock). fmt.Errorf/Sprintf are modelled as executing Error()/String() of operands whose dynamic type belongs to this module (this is what exposed the unbounded recursion of knxnet.ErrCode.String, repaired by 53b2d06).",
